@@ -4,3 +4,5 @@ import WsVerif.Model.Proto
 import WsVerif.Model.Consts
 import WsVerif.Model.Stats
 import WsVerif.Props.C01
+import WsVerif.Model.Peak
+import WsVerif.Props.C02
